@@ -62,7 +62,7 @@ Theorem C05_wf_reachable : forall c ls,
 Proof. exact wf_reachable. Qed.
 Print Assumptions C05_wf_reachable.
 
-(** Known finding CountAfterPartialDrainOrInMemory: segment 0 holds types {0,1},
+(** Known finding CountAfterPartialDrain: segment 0 holds types {0,1},
     segment 1 type 0, k = 2; the batch for type 0 drains segment 1 only; segment 0
     stays live with the files of type 0: COUNT goes from 3 to 4 while the selection
     is unchanged. *)
@@ -134,7 +134,7 @@ Theorem C05_keys_ok_disk_reachable : forall c ls,
 Proof. exact keys_ok_disk_reachable. Qed.
 Print Assumptions C05_keys_ok_disk_reachable.
 
-(** COUNT after the failed run + restart (part of CountAfterPartialDrainOrInMemory). *)
+(** COUNT after the failed run + restart (part of CountAfterPartialDrain). *)
 Theorem C05_failed_run_count_refuted :
   exists c ls b u,
     let s := run (init c) ls in
